@@ -10,21 +10,33 @@ Blocks/Model.vos Blocks/Model.vok Blocks/Model.required_vos: Blocks/Model.v Gene
 Blocks/Proofs.vo Blocks/Proofs.glob Blocks/Proofs.v.beautified Blocks/Proofs.required_vo: Blocks/Proofs.v Generated/C16_OpcodeFlags.vo Blocks/Model.vo
 Blocks/Proofs.vio: Blocks/Proofs.v Generated/C16_OpcodeFlags.vio Blocks/Model.vio
 Blocks/Proofs.vos Blocks/Proofs.vok Blocks/Proofs.required_vos: Blocks/Proofs.v Generated/C16_OpcodeFlags.vos Blocks/Model.vos
+Blocks/Witness.vo Blocks/Witness.glob Blocks/Witness.v.beautified Blocks/Witness.required_vo: Blocks/Witness.v Generated/C16_OpcodeFlags.vo Blocks/Model.vo Blocks/Proofs.vo
+Blocks/Witness.vio: Blocks/Witness.v Generated/C16_OpcodeFlags.vio Blocks/Model.vio Blocks/Proofs.vio
+Blocks/Witness.vos Blocks/Witness.vok Blocks/Witness.required_vos: Blocks/Witness.v Generated/C16_OpcodeFlags.vos Blocks/Model.vos Blocks/Proofs.vos
 Booleq/Model.vo Booleq/Model.glob Booleq/Model.v.beautified Booleq/Model.required_vo: Booleq/Model.v 
 Booleq/Model.vio: Booleq/Model.v 
 Booleq/Model.vos Booleq/Model.vok Booleq/Model.required_vos: Booleq/Model.v 
 Booleq/Proofs.vo Booleq/Proofs.glob Booleq/Proofs.v.beautified Booleq/Proofs.required_vo: Booleq/Proofs.v Booleq/Model.vo
 Booleq/Proofs.vio: Booleq/Proofs.v Booleq/Model.vio
 Booleq/Proofs.vos Booleq/Proofs.vok Booleq/Proofs.required_vos: Booleq/Proofs.v Booleq/Model.vos
+Canon/ErrorProofs.vo Canon/ErrorProofs.glob Canon/ErrorProofs.v.beautified Canon/ErrorProofs.required_vo: Canon/ErrorProofs.v Canon/Model.vo Canon/SortLemmas.vo
+Canon/ErrorProofs.vio: Canon/ErrorProofs.v Canon/Model.vio Canon/SortLemmas.vio
+Canon/ErrorProofs.vos Canon/ErrorProofs.vok Canon/ErrorProofs.required_vos: Canon/ErrorProofs.v Canon/Model.vos Canon/SortLemmas.vos
 Canon/Model.vo Canon/Model.glob Canon/Model.v.beautified Canon/Model.required_vo: Canon/Model.v 
 Canon/Model.vio: Canon/Model.v 
 Canon/Model.vos Canon/Model.vok Canon/Model.required_vos: Canon/Model.v 
+Canon/Proofs.vo Canon/Proofs.glob Canon/Proofs.v.beautified Canon/Proofs.required_vo: Canon/Proofs.v Canon/Model.vo Canon/SortLemmas.vo
+Canon/Proofs.vio: Canon/Proofs.v Canon/Model.vio Canon/SortLemmas.vio
+Canon/Proofs.vos Canon/Proofs.vok Canon/Proofs.required_vos: Canon/Proofs.v Canon/Model.vos Canon/SortLemmas.vos
 Canon/SortLemmas.vo Canon/SortLemmas.glob Canon/SortLemmas.v.beautified Canon/SortLemmas.required_vo: Canon/SortLemmas.v Canon/Model.vo
 Canon/SortLemmas.vio: Canon/SortLemmas.v Canon/Model.vio
 Canon/SortLemmas.vos Canon/SortLemmas.vok Canon/SortLemmas.required_vos: Canon/SortLemmas.v Canon/Model.vos
 Conv/Model.vo Conv/Model.glob Conv/Model.v.beautified Conv/Model.required_vo: Conv/Model.v 
 Conv/Model.vio: Conv/Model.v 
 Conv/Model.vos Conv/Model.vok Conv/Model.required_vos: Conv/Model.v 
+Conv/Proofs.vo Conv/Proofs.glob Conv/Proofs.v.beautified Conv/Proofs.required_vo: Conv/Proofs.v Conv/Model.vo
+Conv/Proofs.vio: Conv/Proofs.v Conv/Model.vio
+Conv/Proofs.vos Conv/Proofs.vok Conv/Proofs.required_vos: Conv/Proofs.v Conv/Model.vos
 Directors/Cases.vo Directors/Cases.glob Directors/Cases.v.beautified Directors/Cases.required_vo: Directors/Cases.v Directors/Model.vo
 Directors/Cases.vio: Directors/Cases.v Directors/Model.vio
 Directors/Cases.vos Directors/Cases.vok Directors/Cases.required_vos: Directors/Cases.v Directors/Model.vos
@@ -43,6 +55,9 @@ Extract/ExtractBind.vos Extract/ExtractBind.vok Extract/ExtractBind.required_vos
 Extract/ExtractBlocks.vo Extract/ExtractBlocks.glob Extract/ExtractBlocks.v.beautified Extract/ExtractBlocks.required_vo: Extract/ExtractBlocks.v Blocks/Model.vo
 Extract/ExtractBlocks.vio: Extract/ExtractBlocks.v Blocks/Model.vio
 Extract/ExtractBlocks.vos Extract/ExtractBlocks.vok Extract/ExtractBlocks.required_vos: Extract/ExtractBlocks.v Blocks/Model.vos
+Extract/ExtractMro.vo Extract/ExtractMro.glob Extract/ExtractMro.v.beautified Extract/ExtractMro.required_vo: Extract/ExtractMro.v Mro/Model.vo
+Extract/ExtractMro.vio: Extract/ExtractMro.v Mro/Model.vio
+Extract/ExtractMro.vos Extract/ExtractMro.vok Extract/ExtractMro.required_vos: Extract/ExtractMro.v Mro/Model.vos
 Extract/ExtractOpt.vo Extract/ExtractOpt.glob Extract/ExtractOpt.v.beautified Extract/ExtractOpt.required_vo: Extract/ExtractOpt.v Opt/Syntax.vo Generated/C11_Passes.vo Opt/Model.vo
 Extract/ExtractOpt.vio: Extract/ExtractOpt.v Opt/Syntax.vio Generated/C11_Passes.vio Opt/Model.vio
 Extract/ExtractOpt.vos Extract/ExtractOpt.vok Extract/ExtractOpt.required_vos: Extract/ExtractOpt.v Opt/Syntax.vos Generated/C11_Passes.vos Opt/Model.vos
@@ -55,6 +70,9 @@ Extract/ExtractPrint.vos Extract/ExtractPrint.vok Extract/ExtractPrint.required_
 Extract/ExtractReach.vo Extract/ExtractReach.glob Extract/ExtractReach.v.beautified Extract/ExtractReach.required_vo: Extract/ExtractReach.v Typegraph/Reach.vo
 Extract/ExtractReach.vio: Extract/ExtractReach.v Typegraph/Reach.vio
 Extract/ExtractReach.vos Extract/ExtractReach.vok Extract/ExtractReach.required_vos: Extract/ExtractReach.v Typegraph/Reach.vos
+Extract/ExtractSerial.vo Extract/ExtractSerial.glob Extract/ExtractSerial.v.beautified Extract/ExtractSerial.required_vo: Extract/ExtractSerial.v Serial/Model.vo Serial/Grammar.vo Generated/C12_Schema.vo
+Extract/ExtractSerial.vio: Extract/ExtractSerial.v Serial/Model.vio Serial/Grammar.vio Generated/C12_Schema.vio
+Extract/ExtractSerial.vos Extract/ExtractSerial.vok Extract/ExtractSerial.required_vos: Extract/ExtractSerial.v Serial/Model.vos Serial/Grammar.vos Generated/C12_Schema.vos
 Extract/ExtractSolver.vo Extract/ExtractSolver.glob Extract/ExtractSolver.v.beautified Extract/ExtractSolver.required_vo: Extract/ExtractSolver.v Typegraph/Graph.vo Typegraph/Solver.vo
 Extract/ExtractSolver.vio: Extract/ExtractSolver.v Typegraph/Graph.vio Typegraph/Solver.vio
 Extract/ExtractSolver.vos Extract/ExtractSolver.vok Extract/ExtractSolver.required_vos: Extract/ExtractSolver.v Typegraph/Graph.vos Typegraph/Solver.vos
@@ -64,6 +82,9 @@ Flow/Model.vos Flow/Model.vok Flow/Model.required_vos: Flow/Model.v
 Flow/Proofs.vo Flow/Proofs.glob Flow/Proofs.v.beautified Flow/Proofs.required_vo: Flow/Proofs.v Flow/Model.vo
 Flow/Proofs.vio: Flow/Proofs.v Flow/Model.vio
 Flow/Proofs.vos Flow/Proofs.vok Flow/Proofs.required_vos: Flow/Proofs.v Flow/Model.vos
+Generated/C02_Builtins.vo Generated/C02_Builtins.glob Generated/C02_Builtins.v.beautified Generated/C02_Builtins.required_vo: Generated/C02_Builtins.v Match/Model.vo
+Generated/C02_Builtins.vio: Generated/C02_Builtins.v Match/Model.vio
+Generated/C02_Builtins.vos Generated/C02_Builtins.vok Generated/C02_Builtins.required_vos: Generated/C02_Builtins.v Match/Model.vos
 Generated/C03_ErrorClasses.vo Generated/C03_ErrorClasses.glob Generated/C03_ErrorClasses.v.beautified Generated/C03_ErrorClasses.required_vo: Generated/C03_ErrorClasses.v 
 Generated/C03_ErrorClasses.vio: Generated/C03_ErrorClasses.v 
 Generated/C03_ErrorClasses.vos Generated/C03_ErrorClasses.vok Generated/C03_ErrorClasses.required_vos: Generated/C03_ErrorClasses.v 
@@ -97,6 +118,9 @@ Io/Proofs.vos Io/Proofs.vok Io/Proofs.required_vos: Io/Proofs.v Io/Model.vos Gen
 Match/Model.vo Match/Model.glob Match/Model.v.beautified Match/Model.required_vo: Match/Model.v 
 Match/Model.vio: Match/Model.v 
 Match/Model.vos Match/Model.vok Match/Model.required_vos: Match/Model.v 
+Match/Proofs.vo Match/Proofs.glob Match/Proofs.v.beautified Match/Proofs.required_vo: Match/Proofs.v Match/Model.vo
+Match/Proofs.vio: Match/Proofs.v Match/Model.vio
+Match/Proofs.vos Match/Proofs.vok Match/Proofs.required_vos: Match/Proofs.v Match/Model.vos
 Merge/Model.vo Merge/Model.glob Merge/Model.v.beautified Merge/Model.required_vo: Merge/Model.v 
 Merge/Model.vio: Merge/Model.v 
 Merge/Model.vos Merge/Model.vok Merge/Model.required_vos: Merge/Model.v 
@@ -139,6 +163,12 @@ Print/Model.vos Print/Model.vok Print/Model.required_vos: Print/Model.v
 Print/Proofs.vo Print/Proofs.glob Print/Proofs.v.beautified Print/Proofs.required_vo: Print/Proofs.v Print/Model.vo
 Print/Proofs.vio: Print/Proofs.v Print/Model.vio
 Print/Proofs.vos Print/Proofs.vok Print/Proofs.required_vos: Print/Proofs.v Print/Model.vos
+Props/C02.vo Props/C02.glob Props/C02.v.beautified Props/C02.required_vo: Props/C02.v Match/Model.vo Match/Proofs.vo Generated/C02_Builtins.vo
+Props/C02.vio: Props/C02.v Match/Model.vio Match/Proofs.vio Generated/C02_Builtins.vio
+Props/C02.vos Props/C02.vok Props/C02.required_vos: Props/C02.v Match/Model.vos Match/Proofs.vos Generated/C02_Builtins.vos
+Props/C03.vo Props/C03.glob Props/C03.v.beautified Props/C03.required_vo: Props/C03.v Generated/C03_ErrorClasses.vo Directors/Model.vo Directors/Spec.vo Directors/Proofs.vo
+Props/C03.vio: Props/C03.v Generated/C03_ErrorClasses.vio Directors/Model.vio Directors/Spec.vio Directors/Proofs.vio
+Props/C03.vos Props/C03.vok Props/C03.required_vos: Props/C03.v Generated/C03_ErrorClasses.vos Directors/Model.vos Directors/Spec.vos Directors/Proofs.vos
 Props/C07.vo Props/C07.glob Props/C07.v.beautified Props/C07.required_vo: Props/C07.v Typegraph/Graph.vo Typegraph/Solver.vo
 Props/C07.vio: Props/C07.v Typegraph/Graph.vio Typegraph/Solver.vio
 Props/C07.vos Props/C07.vok Props/C07.required_vos: Props/C07.v Typegraph/Graph.vos Typegraph/Solver.vos
@@ -154,15 +184,33 @@ Props/C10.vos Props/C10.vok Props/C10.required_vos: Props/C10.v Mro/Model.vos Mr
 Props/C13.vo Props/C13.glob Props/C13.v.beautified Props/C13.required_vo: Props/C13.v Bind/Model.vo Bind/Proofs.vo
 Props/C13.vio: Props/C13.v Bind/Model.vio Bind/Proofs.vio
 Props/C13.vos Props/C13.vok Props/C13.required_vos: Props/C13.v Bind/Model.vos Bind/Proofs.vos
+Props/C14.vo Props/C14.glob Props/C14.v.beautified Props/C14.required_vo: Props/C14.v Ops/Model.vo Generated/C14_Builtins.vo Ops/Proofs.vo
+Props/C14.vio: Props/C14.v Ops/Model.vio Generated/C14_Builtins.vio Ops/Proofs.vio
+Props/C14.vos Props/C14.vok Props/C14.required_vos: Props/C14.v Ops/Model.vos Generated/C14_Builtins.vos Ops/Proofs.vos
 Props/C15.vo Props/C15.glob Props/C15.v.beautified Props/C15.required_vo: Props/C15.v Io/Model.vo Generated/C15_Handlers.vo Io/Proofs.vo Io/LineProofs.vo
 Props/C15.vio: Props/C15.v Io/Model.vio Generated/C15_Handlers.vio Io/Proofs.vio Io/LineProofs.vio
 Props/C15.vos Props/C15.vok Props/C15.required_vos: Props/C15.v Io/Model.vos Generated/C15_Handlers.vos Io/Proofs.vos Io/LineProofs.vos
+Props/C16.vo Props/C16.glob Props/C16.v.beautified Props/C16.required_vo: Props/C16.v Generated/C16_OpcodeFlags.vo Blocks/Model.vo Blocks/Proofs.vo Blocks/Witness.vo
+Props/C16.vio: Props/C16.v Generated/C16_OpcodeFlags.vio Blocks/Model.vio Blocks/Proofs.vio Blocks/Witness.vio
+Props/C16.vos Props/C16.vok Props/C16.required_vos: Props/C16.v Generated/C16_OpcodeFlags.vos Blocks/Model.vos Blocks/Proofs.vos Blocks/Witness.vos
 Props/C17.vo Props/C17.glob Props/C17.v.beautified Props/C17.required_vo: Props/C17.v Booleq/Model.vo Booleq/Proofs.vo
 Props/C17.vio: Props/C17.v Booleq/Model.vio Booleq/Proofs.vio
 Props/C17.vos Props/C17.vok Props/C17.required_vos: Props/C17.v Booleq/Model.vos Booleq/Proofs.vos
 Props/C18.vo Props/C18.glob Props/C18.v.beautified Props/C18.required_vo: Props/C18.v Flow/Model.vo Flow/Proofs.vo
 Props/C18.vio: Props/C18.v Flow/Model.vio Flow/Proofs.vio
 Props/C18.vos Props/C18.vok Props/C18.required_vos: Props/C18.v Flow/Model.vos Flow/Proofs.vos
+Props/C19.vo Props/C19.glob Props/C19.v.beautified Props/C19.required_vo: Props/C19.v Plan/Model.vo Plan/Proofs.vo
+Props/C19.vio: Props/C19.v Plan/Model.vio Plan/Proofs.vio
+Props/C19.vos Props/C19.vok Props/C19.required_vos: Props/C19.v Plan/Model.vos Plan/Proofs.vos
+Serial/Grammar.vo Serial/Grammar.glob Serial/Grammar.v.beautified Serial/Grammar.required_vo: Serial/Grammar.v Serial/Model.vo
+Serial/Grammar.vio: Serial/Grammar.v Serial/Model.vio
+Serial/Grammar.vos Serial/Grammar.vok Serial/Grammar.required_vos: Serial/Grammar.v Serial/Model.vos
+Serial/GrammarProofs.vo Serial/GrammarProofs.glob Serial/GrammarProofs.v.beautified Serial/GrammarProofs.required_vo: Serial/GrammarProofs.v Serial/Model.vo Serial/Proofs.vo Serial/Grammar.vo
+Serial/GrammarProofs.vio: Serial/GrammarProofs.v Serial/Model.vio Serial/Proofs.vio Serial/Grammar.vio
+Serial/GrammarProofs.vos Serial/GrammarProofs.vok Serial/GrammarProofs.required_vos: Serial/GrammarProofs.v Serial/Model.vos Serial/Proofs.vos Serial/Grammar.vos
+Serial/HashProofs.vo Serial/HashProofs.glob Serial/HashProofs.v.beautified Serial/HashProofs.required_vo: Serial/HashProofs.v Serial/Model.vo Serial/Proofs.vo
+Serial/HashProofs.vio: Serial/HashProofs.v Serial/Model.vio Serial/Proofs.vio
+Serial/HashProofs.vos Serial/HashProofs.vok Serial/HashProofs.required_vos: Serial/HashProofs.v Serial/Model.vos Serial/Proofs.vos
 Serial/Model.vo Serial/Model.glob Serial/Model.v.beautified Serial/Model.required_vo: Serial/Model.v 
 Serial/Model.vio: Serial/Model.v 
 Serial/Model.vos Serial/Model.vok Serial/Model.required_vos: Serial/Model.v 
@@ -178,12 +226,27 @@ Typegraph/History.vos Typegraph/History.vok Typegraph/History.required_vos: Type
 Typegraph/HistoryProofs.vo Typegraph/HistoryProofs.glob Typegraph/HistoryProofs.v.beautified Typegraph/HistoryProofs.required_vo: Typegraph/HistoryProofs.v Typegraph/History.vo
 Typegraph/HistoryProofs.vio: Typegraph/HistoryProofs.v Typegraph/History.vio
 Typegraph/HistoryProofs.vos Typegraph/HistoryProofs.vok Typegraph/HistoryProofs.required_vos: Typegraph/HistoryProofs.v Typegraph/History.vos
+Typegraph/PathProofs.vo Typegraph/PathProofs.glob Typegraph/PathProofs.v.beautified Typegraph/PathProofs.required_vo: Typegraph/PathProofs.v Typegraph/Graph.vo Typegraph/Solver.vo Typegraph/Spec.vo Typegraph/SetLemmas.vo
+Typegraph/PathProofs.vio: Typegraph/PathProofs.v Typegraph/Graph.vio Typegraph/Solver.vio Typegraph/Spec.vio Typegraph/SetLemmas.vio
+Typegraph/PathProofs.vos Typegraph/PathProofs.vok Typegraph/PathProofs.required_vos: Typegraph/PathProofs.v Typegraph/Graph.vos Typegraph/Solver.vos Typegraph/Spec.vos Typegraph/SetLemmas.vos
 Typegraph/Reach.vo Typegraph/Reach.glob Typegraph/Reach.v.beautified Typegraph/Reach.required_vo: Typegraph/Reach.v 
 Typegraph/Reach.vio: Typegraph/Reach.v 
 Typegraph/Reach.vos Typegraph/Reach.vok Typegraph/Reach.required_vos: Typegraph/Reach.v 
 Typegraph/ReachProofs.vo Typegraph/ReachProofs.glob Typegraph/ReachProofs.v.beautified Typegraph/ReachProofs.required_vo: Typegraph/ReachProofs.v Typegraph/Reach.vo
 Typegraph/ReachProofs.vio: Typegraph/ReachProofs.v Typegraph/Reach.vio
 Typegraph/ReachProofs.vos Typegraph/ReachProofs.vok Typegraph/ReachProofs.required_vos: Typegraph/ReachProofs.v Typegraph/Reach.vos
+Typegraph/RfgProofs.vo Typegraph/RfgProofs.glob Typegraph/RfgProofs.v.beautified Typegraph/RfgProofs.required_vo: Typegraph/RfgProofs.v Typegraph/Graph.vo Typegraph/Solver.vo Typegraph/Spec.vo Typegraph/SetLemmas.vo
+Typegraph/RfgProofs.vio: Typegraph/RfgProofs.v Typegraph/Graph.vio Typegraph/Solver.vio Typegraph/Spec.vio Typegraph/SetLemmas.vio
+Typegraph/RfgProofs.vos Typegraph/RfgProofs.vok Typegraph/RfgProofs.required_vos: Typegraph/RfgProofs.v Typegraph/Graph.vos Typegraph/Solver.vos Typegraph/Spec.vos Typegraph/SetLemmas.vos
+Typegraph/SearchProofs.vo Typegraph/SearchProofs.glob Typegraph/SearchProofs.v.beautified Typegraph/SearchProofs.required_vo: Typegraph/SearchProofs.v Typegraph/Graph.vo Typegraph/Solver.vo Typegraph/Spec.vo Typegraph/SetLemmas.vo Typegraph/RfgProofs.vo Typegraph/PathProofs.vo
+Typegraph/SearchProofs.vio: Typegraph/SearchProofs.v Typegraph/Graph.vio Typegraph/Solver.vio Typegraph/Spec.vio Typegraph/SetLemmas.vio Typegraph/RfgProofs.vio Typegraph/PathProofs.vio
+Typegraph/SearchProofs.vos Typegraph/SearchProofs.vok Typegraph/SearchProofs.required_vos: Typegraph/SearchProofs.v Typegraph/Graph.vos Typegraph/Solver.vos Typegraph/Spec.vos Typegraph/SetLemmas.vos Typegraph/RfgProofs.vos Typegraph/PathProofs.vos
+Typegraph/SetLemmas.vo Typegraph/SetLemmas.glob Typegraph/SetLemmas.v.beautified Typegraph/SetLemmas.required_vo: Typegraph/SetLemmas.v Typegraph/Graph.vo Typegraph/Solver.vo
+Typegraph/SetLemmas.vio: Typegraph/SetLemmas.v Typegraph/Graph.vio Typegraph/Solver.vio
+Typegraph/SetLemmas.vos Typegraph/SetLemmas.vok Typegraph/SetLemmas.required_vos: Typegraph/SetLemmas.v Typegraph/Graph.vos Typegraph/Solver.vos
 Typegraph/Solver.vo Typegraph/Solver.glob Typegraph/Solver.v.beautified Typegraph/Solver.required_vo: Typegraph/Solver.v Typegraph/Graph.vo
 Typegraph/Solver.vio: Typegraph/Solver.v Typegraph/Graph.vio
 Typegraph/Solver.vos Typegraph/Solver.vok Typegraph/Solver.required_vos: Typegraph/Solver.v Typegraph/Graph.vos
+Typegraph/Spec.vo Typegraph/Spec.glob Typegraph/Spec.v.beautified Typegraph/Spec.required_vo: Typegraph/Spec.v Typegraph/Graph.vo Typegraph/Solver.vo
+Typegraph/Spec.vio: Typegraph/Spec.v Typegraph/Graph.vio Typegraph/Solver.vio
+Typegraph/Spec.vos Typegraph/Spec.vok Typegraph/Spec.required_vos: Typegraph/Spec.v Typegraph/Graph.vos Typegraph/Solver.vos
